@@ -30,7 +30,7 @@ def step (toks : List String) : String :=
     let p := (parTemperingStep countOps (fun _ _ m => List.range m) 0 (tcOf n)).rng.getD 0
     s!"{s} {p}"
   | k :: _ =>
-    if k.startsWith "twin-" || k.startsWith "clone-" || k == "pool" then "same" else "bad-op"
+    if k.startsWith "twin-" || k.startsWith "clone-" || k.startsWith "clonefrom-" || k == "pool" || k == "ladder" then "same" else "bad-op"
   | _ => "bad-op"
 
 def main : IO Unit := run step
